@@ -33,21 +33,41 @@ Definition icompare (tracked : list bytes) (self gwa : bytes) (pre post : iworld
      then 0 else 8)
   + (if bdiff_ok tracked (iw_led pre) (iw_led post) (ix_bd x) then 0 else 16).
 
+(* read-only queries of the service (views): they change nothing and return a function of the current state *)
+Inductive iview :=
+| VInterchainId (deployer salt : bytes)
+| VCanonicalId (token : bytes)
+| VLinkedId (deployer salt : bytes)
+| VChainNameHash
+| VDeployedTm (token_id : bytes).
+
+Definition iview_eval (w : iworld) (v : iview) : iout :=
+  let s := iw_its w in
+  match v with
+  | VInterchainId d sa => {| io_ok := true; io_rets := [interchain_token_id keccak256 s d sa]; io_logs := [] |}
+  | VCanonicalId t => {| io_ok := true; io_rets := [canonical_token_id keccak256 s t]; io_logs := [] |}
+  | VLinkedId d sa => {| io_ok := true; io_rets := [linked_token_id keccak256 s d sa]; io_logs := [] |}
+  | VChainNameHash => {| io_ok := true; io_rets := [i_chain_hash s]; io_logs := [] |}
+  | VDeployedTm tid => if bytes_eqb (tm_addr s tid) [] then ifail else {| io_ok := true; io_rets := [tm_addr s tid]; io_logs := [] |}
+  end.
+
 Section Run.
   Variable tab : list (bytes * bytes * bytes).
 
-  Fixpoint icheck_steps (tracked : list bytes) (self gwa : bytes) (w : iworld) (steps : list (iop * iexpect)) : list N :=
+  Fixpoint icheck_steps (tracked : list bytes) (self gwa : bytes) (w : iworld) (steps : list ((iop + iview) * iexpect)) : list N :=
     match steps with
     | [] => []
-    | (o, x) :: r =>
+    | (inl o, x) :: r =>
         let '(w', out) := istep keccak256 (verify_tab tab) w o in
         icompare tracked self gwa w w' out x :: icheck_steps tracked self gwa w' r
+    | (inr v, x) :: r =>
+        icompare tracked self gwa w w (iview_eval w v) x :: icheck_steps tracked self gwa w r
     end.
 
   Definition icheck_trace (tracked : list bytes) (l0 : ledger)
              (gwnow retention : N) (domain : bytes) (gwdelay : N) (gwop : bytes) (signers_raw : list bytes)
              (self gwa gasa tmimpl operator chain : bytes) (trusted_ : list (bytes * bytes))
-             (steps : list (iop * iexpect)) : list N :=
+             (steps : list ((iop + iview) * iexpect)) : list N :=
     match gw_init keccak256 gwnow retention domain gwdelay gwop signers_raw with
     | Some (g, _) =>
         let s := {| i_gateway := gwa; i_gas := gasa; i_tm_impl := tmimpl; i_chain := chain; i_chain_hash := keccak256 chain;
